@@ -89,16 +89,19 @@ Proof. exact Lemmas.manager_inv_reachable. Qed.
 Print Assumptions manager_inv_reachable.
 
 (* in every state reached by a valid history with no delay block open, a dataset of the collection reads an attribute
-   exactly when the links in force derive it from its own attributes, and the value read is the composition of the
-   link functions along a derivation tree of minimum height *)
+   (through Data.get_data: own components first, derived ones by their own link) exactly when the links in force - the
+   derived-component and coordinate links of the datasets in the collection included - derive it from its main and
+   coordinate attributes; the value read is the composition of the link functions along the stored derivation tree,
+   whose height is the minimum one, with the dataset's own components as leaves *)
 Theorem manager_reads_exactly : forall s0 ops,
   wf s0 -> (s_delay s0 = 0%nat -> fresh s0) -> valid_history s0 ops ->
   let s := run s0 ops in
   s_delay s = 0%nat ->
   forall d env c, In d (s_data s) -> d_member d = true ->
-    (read (d_own d) env (d_tbl d) c <> None <-> exists n, Derivable (d_own d) (all_links s) c n) /\
-    (forall v, read (d_own d) env (d_tbl d) c = Some v ->
-       exists k, DerivVal (d_own d) (all_links s) env c k v /\
+    (read_ds d env c <> None <-> exists n, Derivable (d_own d) (all_links s) c n) /\
+    (forall v, read_ds d env c = Some v ->
+       exists k, DerivVal (comps d) (all_links s) (der_env d env) c k v /\
+                 depth_of (d_own d) (d_tbl d) c = Some k /\
                  forall n, Derivable (d_own d) (all_links s) c n -> (k <= n)%nat).
 Proof. exact Lemmas.manager_reads_exactly. Qed.
 Print Assumptions manager_reads_exactly.
